@@ -6,9 +6,10 @@
              String, Symbol, Keyword
   R-FROM-INT From<i8..i64> stores n >= 0 as PosInt(n) and n < 0 as NegInt(n); From<u8..u64> as PosInt;
              From<f32/f64> as Float (so a non-negative integer is never a NegInt)
-  R-EQ-SYM   every PartialEq impl between Value and a primitive is evaluated on boundary cases (see eq_sym):
-             matching type class, widens with From (never `as`), both operand orders use the same
-             helper, and the helper compares through the matching as_* accessor
+  R-EQ-SYM   every PartialEq impl between Value and a primitive (both operand orders, through references) is
+             evaluated abstractly on the stored integer cases x the boundary values of the primitive type,
+             booleans, strings of each name kind and the non-matching kinds: integers compare by
+             mathematical value, every other pairing is unequal
 Not decided: payload preservation for strings/bytes/chars as values.
 """
 from .. import common, facts as F, sim
@@ -38,8 +39,9 @@ def run(ctx):
         "their complete outcome maps by constant propagation of every Value kind (11) and of the integer boundary "
         "payloads (0, 1, i64::MAX, i64::MAX+1, u64::MAX, -1, i64::MIN) and compares each is_x map with the Some-set of "
         "as_x. The From<integer> impls are evaluated on the boundary values of each width to establish the "
-        "representation invariant the accessors rely on. The 40-odd PartialEq impls generated by partialeq_numeric! are "
-        "audited structurally (one helper call, From-widening only, symmetric partner uses the same helper).")
+        "representation invariant the accessors rely on. The 50 PartialEq impls between Value and primitives are "
+        "evaluated abstractly on boundary cases (3298 in all): integers compare by mathematical value, other pairings are "
+        "unequal, in both operand orders.")
     ctx.trusted = ["rustc nightly MIR construction", "integer From impls of std are lossless"]
     isas(ctx, lexpr)
     from_int(ctx, lexpr)
